@@ -51,7 +51,7 @@ def gen_consts():
     msgs = []; ok = True
     for tool, name in (('gen_consts.py', 'Consts.lean'), ('gen_codecs.py', 'Codecs.lean'), ('gen_fns.py', 'Fns.lean')):
         out = os.path.join(LEAN, 'Sucds', 'Gen', name)
-        extra = ['--report', os.path.join(BUILD, 'gen_fns_report.json')] if tool == 'gen_fns.py' else []
+        extra = ['--report', os.path.join(BUILD, 'gen_fns_report.json'), '--validate'] if tool == 'gen_fns.py' else []
         os.makedirs(BUILD, exist_ok=True)
         r = subprocess.run([sys.executable, os.path.join(ROOT, 'tools', tool), REPO, out] + extra, capture_output=True, text=True)
         ok = ok and r.returncode == 0; msgs.append((r.stdout + r.stderr).strip())
@@ -113,7 +113,7 @@ def lean_check(prop, tier='quick'):
         gen_mod = mod + 'Gen'
         has_gen = os.path.exists(os.path.join(LEAN, 'Sucds', 'Props', prop + 'Gen.lean'))
         t0 = time.time()
-        r = subprocess.run(['lake', 'build', mod, 'sucds_model'] + ([gen_mod] if has_gen else []), cwd=LEAN, capture_output=True, text=True, env=ENV)
+        r = subprocess.run(['lake', 'build', mod, 'sucds_model', 'Sucds.Gen.Fns'] + ([gen_mod] if has_gen else []), cwd=LEAN, capture_output=True, text=True, env=ENV)
         res['lake_s'] = round(time.time() - t0, 1)
         mods = lean_imports(mod)
         if has_gen: mods = mods | lean_imports(gen_mod)
@@ -159,6 +159,15 @@ def lean_check(prop, tier='quick'):
         out = r.stdout + r.stderr
         if r.returncode != 0:
             res['ok'] = False; res['errors'].append('axiom audit failed: ' + out[:500]); return res
+        # evaluation of the generated definitions against the model for the groups without an equivalence proof yet
+        GENTEST_PROPS = {'C02', 'C03', 'C04', 'C05', 'C06', 'C10', 'C11', 'C12'}
+        gt = os.path.join(LEAN, 'Sucds', 'Test', 'GenVsModel.lean')
+        if os.path.exists(gt) and (tier == 'thorough' or prop in GENTEST_PROPS):
+            rr = subprocess.run(['lake', 'env', 'lean', gt], cwd=LEAN, capture_output=True, text=True, env=ENV)
+            res['gen_vs_model_test'] = 'passed' if rr.returncode == 0 else 'FAILED'
+            if rr.returncode != 0:
+                res['ok'] = False; res['failed_modules'] = res.get('failed_modules', []) + ['Sucds.Test.GenVsModel']
+                res['errors'].append('definitions generated from the current sources disagree with the model on a test input: ' + (rr.stdout + rr.stderr)[:400])
         if tier == 'thorough':
             # independent replay of every proof/property module of the closure by leanchecker
             from concurrent.futures import ThreadPoolExecutor
@@ -561,7 +570,7 @@ def main():
             'traces_validated_against_impl': sum(st['lines'] for st in stats_by_cfg.values()),
             'configurations': cfgs, 'stats_by_configuration': stats_by_cfg, 'corpus_cases': ncorpus,
             'leanchecker': lean.get('leanchecker'),
-            'function_translator': lean.get('translator'),
+            'function_translator': lean.get('translator'), 'generated_vs_model_evaluation': lean.get('gen_vs_model_test'),
             'theorems_about_generated_definitions': lean.get('generated_definition_theorems', []),
             'explanation': 'theorems over the Lean model re-checked by lake build against constants regenerated from /repo; model tied to /repo by running %d generated cases through the real code (%s) and the model driver, comparing implementation vs model (tie), implementation vs specification (oracle) and model vs specification' % (evaluations, ', '.join(cfgs)),
             'exhaustive': False,
